@@ -1,12 +1,12 @@
 (* C10 - update never touches what it does not own.  Statements only; proofs in Proofs/Frame.v.
    PARTIAL: "only save writes" is proved for every operation sequence of the executable loader model, the
-   frame of the two writing primitives and the type-preserving refresh are proved for all inputs; that
-   save_manifests writes Manifest paths only and that DIST/IGNORE/TIMESTAMP and out-of-scope entries survive
-   a whole update is decided by the correspondence runs (content+mtime listings of real trees). *)
+   frame of the writing primitives, of saving one Manifest and of the whole save step (only files named by
+   Manifest paths can change) and the type-preserving refresh are proved for all inputs; that DIST/IGNORE/
+   TIMESTAMP and out-of-scope entries survive a whole update is decided by the correspondence runs (content+mtime listings of real trees). *)
 From Coq Require Import List NArith ZArith Bool.
 From Gemato Require Import Py.PyStr Py.PyPath Gen.Tables Model.Entry Model.Text Model.OpenPGP Model.Hash
   Model.FS Model.Verify Model.Loader Model.Update Exec.Sx Exec.Oracles Exec.Tree.
-From Gemato Require Import Proofs.Frame.
+From Gemato Require Import Proofs.Frame Proofs.SaveAll.
 Import ListNotations.
 Open Scope N_scope.
 
@@ -38,6 +38,21 @@ Theorem C10_save_manifest_frame : forall compress pgp_sign wmtime w l relpath so
   node w' j = Some (IFile d m s x).
 Proof. exact save_manifest_frame. Qed.
 Print Assumptions C10_save_manifest_frame.
+
+(* the whole save step (all Manifests, refresh of MANIFEST entries, recompression with rename and unlink): a
+   regular file of the initial filesystem can change only if, at the beginning, it is named by a Manifest path of
+   the loader - the path itself, the path with ".<format>" appended, or the path with its suffix cut off *)
+Theorem C10_save_writes_manifest_paths_only :
+  forall (L : hashlib) decompress compress pgp_verify pgp_sign wmtime w l o w' l',
+  save_manifests L decompress compress pgp_verify pgp_sign wmtime w l o = Ok (w', l') ->
+  exists l0, (if so_force o then load_manifests_for_path L decompress pgp_verify rounds_fuel w l [] true true else Ok l) = Ok l0 /\
+    forall j d m s x, node w j = Some (IFile d m s x) ->
+      (forall q, may_write (iter_manifests l0 [] true)
+                           (match so_format o with Some f => f | None => o_format (l_opts l) end) q ->
+                 ~ names w (pjoin rootdir q) j) ->
+      node w' j = Some (IFile d m s x).
+Proof. exact save_manifests_frame. Qed.
+Print Assumptions C10_save_writes_manifest_paths_only.
 
 Theorem C10_unlink_frame : forall w path w',
   unlink_file w path = Ok w' ->
